@@ -146,6 +146,9 @@ type loopConn struct {
 	discard bool // do not keep payload bytes (huge packets)
 	total   int
 	mute    bool
+	// SUBSCRIBE packets whose first filter equals holdFilter get no answer
+	holdFilter string
+	heldID     uint16
 }
 
 func newLoopConn() *loopConn {
@@ -203,6 +206,10 @@ func (c *loopConn) Write(p []byte) (int, error) {
 			c.in = append(c.in, 0x70, 2, pkt[2], pkt[3])
 		case tSUBSCRIBE:
 			if p, err := decodeClientPacket(pkt); err == nil {
+				if c.holdFilter != "" && p.Filters[0] == c.holdFilter {
+					c.heldID = p.ID
+					continue
+				}
 				c.in = append(c.in, encSuback(p.ID, p.Levels)...)
 			}
 		case tUNSUBSCRIBE:
